@@ -91,7 +91,41 @@ def program_family(res, tier, rnd):
                 bad.append((m, "printed lines appear out of order"))
                 break
             pos = i
-    res.oblige("Spec on real Programs: lines printed with Println / Printf (commands and Program methods, texts containing '%%') appear verbatim, once, in order (%d programs)" % len(scs),
+    # ... and they are still on the screen afterwards, also when the terminal was handed to an external command and taken
+    # back in between (the output replayed on a terminal: lib/widevt.py)
+    from .. import widevt as W
+    scs2, metas2 = [], []
+    for rep in range(4 if tier == "quick" else 30):
+        lines = ["log line %d of run %d" % (k, rep) for k in range(rnd.randint(2, 5))]
+        how = ["exec", "exec-fast", "release-restore", "none"][rep % 4]
+        script = [P.W("started"), P.W("idle")]
+        for t in lines:
+            script += [P.DO("send", msg=P.B("print", s=t))]
+        script += [P.DO("send", msg=P.U(1)), P.DO("sleep", us=30000), P.W("idle")]
+        if how == "exec":
+            script += [P.DO("send", msg=P.B("exec", cb=True)), P.DO("sleep", us=60000), P.W("idle")]
+        elif how == "exec-fast":
+            script += [P.DO("send", msg=P.B("exec", fast=True)), P.DO("sleep", us=60000), P.W("idle")]
+        elif how == "release-restore":
+            script += [P.DO("release-terminal"), P.DO("sleep", us=20000), P.DO("restore-terminal"), P.DO("sleep", us=40000), P.W("idle")]
+        script += [P.DO("send", msg=P.U(2)), P.DO("sleep", us=30000), P.W("idle"), P.DO("quit"), P.W("returned")]
+        scs2.append(P.scenario(len(scs2), script, opts={"fps": 120}, inp={"kind": "pipe"}, parallel_ok=True, watchdog_ms=4000))
+        metas2.append({"lines": lines, "how": how})
+    results2, _ = P.run_scenarios("C14_prog2", scs2, timeout=600)
+    for m, r in zip(metas2, results2):
+        if P.machinery_problem(r) or not r["run_returned"]:
+            bad.append((m, "scenario did not complete"))
+            continue
+        vt = W.VT(80, 24)
+        if not vt.feed(bytes(r["output"])):
+            bad.append((m, "the output could not be replayed on the terminal"))
+            continue
+        rows = [x for x in vt.window() if x]
+        want = m["lines"]
+        got = [x for x in rows if x.startswith("log line")]
+        if got != want:
+            bad.append((m, "printed lines %r; after the run (%s in between) the screen shows %r" % (want, m["how"], rows[:10])))
+    res.oblige("Spec on real Programs: lines printed with Println / Printf (commands and Program methods, texts containing '%%') appear verbatim, once, in order, and stay on the screen across an external command / release and restore (%d programs)" % (len(scs) + len(scs2)),
                not bad, bad[:2])
     for m, what in bad[:1]:
         res.violation("C14:program-print", what, {"scenario_meta": m})
